@@ -91,6 +91,10 @@ impl WorkspaceIndex {
     pub fn update_from_disk(&mut self, path: &Path) {
         if let Ok(content) = std::fs::read_to_string(path) {
             self.update_from_content(path, &content);
+        } else {
+            // Nothing on disk to fall back on: whatever the index holds for
+            // this path came from an editor buffer that is gone now.
+            self.files.remove(path);
         }
     }
 
